@@ -27,9 +27,13 @@ def replay_toy(ctx, tables):
             continue
         with toy(p, a, b, n, g, toy_hash=True) as pecc:
             if mode == "schnorr":
-                for r in tab["rows"]:
+                pks = {}
+                # one PrivateKey object per secret, rows of one (secret, message) adjacent: signing must not depend on earlier calls
+                for r in sorted(tab["rows"], key=lambda r: (r["d"], r["m"], r["aux"])):
                     d, m, aux, want = r["d"], bytes(r["m"]), bytes(r["aux"]), bytes(r["sig"])
-                    pk = pecc.PrivateKey(d)
+                    if d not in pks:
+                        pks[d] = pecc.PrivateKey(d)
+                    pk = pks[d]
                     got = outcome(lambda: pk.sign_schnorr(m, aux).serialize())
                     cnt += 1
                     if not want:
@@ -51,8 +55,8 @@ def replay_toy(ctx, tables):
                     def call():
                         pt = pecc.S256Point.parse_xonly(pxb)
                         return pt.verify_schnorr(m, pecc.SchnorrSignature.parse(sig))
-                    if r["px"] == 0:
-                        continue       # x = 0: the library's encoding of infinity (not a point on the real curve)
+                    if r["px"] == 0 and (b % p) in [(y * y) % p for y in range(p)]:
+                        continue       # x = 0 is on this toy curve, but the library uses 0 as its encoding of infinity (x = 0 is not on secp256k1)
                     got = outcome(call)
                     acc = got == ("ok", True)
                     cnt += 1
@@ -93,6 +97,15 @@ def real_cases(ctx, rng, nkeys, nflip):
             res = outcome(pk.sign_schnorr, m, aux)
         finally:
             pecc.PrivateKey.bip340_k = orig
+        if i % 2 == 0:
+            # history independence: an earlier signature of the same message with another aux on the same object
+            outcome(pk.sign_schnorr, m, bytes(32) if aux != bytes(32) else b"\x01" * 32)
+            try:
+                pecc.PrivateKey.bip340_k = wrapped
+                k0s.clear()
+                res = outcome(pk.sign_schnorr, m, aux)
+            finally:
+                pecc.PrivateKey.bip340_k = orig
         Pt = pk.point
         ctx.nontriv(("real-ssign", Pt.parity, d in secrets))
         if res[0] != "ok" or not k0s:
@@ -136,13 +149,17 @@ def real_cases(ctx, rng, nkeys, nflip):
             mut[bit // 8] ^= 1 << (bit % 8)
             cat.append(("bitflip-%s" % ("R" if bit < 256 else "s"), bytes(mut), m, True))
         other = pecc.PrivateKey(rng.randrange(1, N256)).point
+        sG = rng.randrange(1, 1000)
+        while (sG * pecc.G).parity:
+            sG += 1
+        cat.append(("zero-key-forgery", (sG * pecc.G).xonly() + sG.to_bytes(32, "big"), m, None))
         for j, (name, cand, mm, ours) in enumerate(cat):
-            key = Pt if ours else other
+            pxb = bytes(32) if ours is None else (Pt if ours else other).x.num.to_bytes(32, "big")
+            ours = bool(ours)
 
             def call():
-                return key.verify_schnorr(mm, pecc.SchnorrSignature.parse(cand))
+                return pecc.S256Point.parse_xonly(pxb).verify_schnorr(mm, pecc.SchnorrSignature.parse(cand))
             got = outcome(call)
-            pxb = key.x.num.to_bytes(32, "big")
             cin = cand[:32] + pxb + mm
             e2 = int.from_bytes(hash_prim("tag:BIP0340/challenge", cin), "big")
             cases.append({"id": "v%d.%d.%s" % (i, j, name), "kind": "sverify", "name": name, "sig": B(cand), "m": B(mm), "px": B(pxb), "key_is_ours": ours,
